@@ -166,6 +166,60 @@ def h_from_bytes(arch):
     return body
 
 
+def h_from_bytes_guarded(arch, encoded):
+    """the same for a stage whose configuration is protected with Guardrails (scaled patch areas, key candidates supplied by the
+    harness as in C17) — plain image, and the image inside a XorEncoded stage. Plain image: symbolic low stamp bytes. XorEncoded
+    stage: CONCRETE scenario run through the interpreter (the rolling XOR would spread a symbolic byte over the whole stage)"""
+    P, G = 24, 20
+
+    def body(ctx):
+        from harness import c17
+        from harness.c09 import encode
+        from dissect.cobaltstrike import guardrails
+        if encoded:
+            cstamp = SymBytes([0x21, 0x43, 0x65, 0x5E])
+            estamp = SymBytes([0x10, 0x5F, 0x94, 0x5F])
+        else:
+            cstamp = SymBytes(sym_bytes("compile_stamp", 1).cells + [0x43, 0x65, 0x5E])
+            estamp = SymBytes(sym_bytes("export_stamp", 1).cells + [0x5F, 0x94, 0x5F])
+        plain = CB.rec(1, CB.SHORT, [0, 8]) + CB.rec(2, CB.SHORT, [0x01, 0xBB]) + [0, 0]
+        plain += [0] * (P - len(plain))
+        key = [0x5A, 0xA7]
+        good = guardrails.payload_checksum(bytes(plain)) + 1
+        area, lay = c17.protect(P, G, plain, key, ("user",), {"user": [0x35, 0x36]}, list(good.to_bytes(4, "big")), 0, 0)
+        exportdir = [0, 0, 0, 0] + estamp.cells + [0] * 32
+        raw = [0x33] * 40 + exportdir
+        assert len(raw) == RAW
+        img, _ = build_image(arch, 64, 1, b"MZAR", b"PE\0\0", cstamp.cells, [(0x2000, 0x60)], 0x2000 + 40, [raw])
+        img = img + area + [0x51, 0x52]  # the protected areas behind the image (overlay)
+        if encoded:
+            stage = encode(SymBytes(img), SymBytes([0x13, 0x37, 0xC0, 0xDE]), SymBytes([0x90] * 6 + [0xFF, 0xFF, 0xFF])).cells
+        else:
+            stage = [0x90, 0x90, 0x90] + img
+        real = guardrails.find_xor_key_candidates
+        c17.scaled(P, G, True)
+        if is_native():
+            guardrails.find_xor_key_candidates = lambda fh: [bytes(key)]
+        else:
+            I.stubs[real] = lambda fh: [bytes(key)]
+        try:
+            data = V.unwrap(SymBytes(stage))
+            kind, r = outcome(BeaconConfig.from_bytes, data if not is_native() else V.to_native(SymBytes(seq_cells(data, SymBytes))))
+        finally:
+            c17.scaled(P, G, False)
+            if is_native():
+                guardrails.find_xor_key_candidates = real
+            I.stubs.pop(real, None)
+        ctx.prove(kind == "ok", "Guardrails-protected stage is extracted (%s)" % (r if kind == "exc" else ""))
+        if kind != "ok":
+            return
+        ctx.prove(r.guardrails is not None and deep_eq(as_bytes(r.config_block), SymBytes(plain)), "the protected configuration is the one recovered")
+        ctx.prove(r.architecture == arch, "architecture == Machine of the image (got %r)" % (r.architecture,))
+        ctx.prove(deep_eq(r.pe_compile_stamp, m_int_from_bytes(cstamp, "little")), "pe_compile_stamp == TimeDateStamp of the file header (got %r)" % (r.pe_compile_stamp,))
+        ctx.prove(deep_eq(r.pe_export_stamp, m_int_from_bytes(estamp, "little")), "pe_export_stamp == TimeDateStamp of the export directory (got %r)" % (r.pe_export_stamp,))
+    return body
+
+
 def io_model(data):
     if is_native():
         import io
@@ -309,6 +363,15 @@ def instances(tier):
         out.append(Instance("artifacts %s long prepend=%d+1 e_lfanew=%d" % (arch, pad, e), h_artifacts(arch, e, 0, 1, 2, 0, 24, pad=pad),
                             dict(kind="artifacts", arch=arch, e_lfanew=e, sections=0, prepend=pad + 1, cost=10 ** 5), max_loop=3000, split=8))
     for arch in ("x86", "x64"):
+        for enc in (False, True):
+            if q and enc and arch == "x86":
+                continue
+            i = Instance("extraction of a Guardrails-protected %s reports the image's artifacts %s" % ("XorEncoded stage" if enc else "image", arch), h_from_bytes_guarded(arch, enc),
+                         dict(kind="from_bytes_guardrails", arch=arch, xorencoded=enc, symbolic="none (concrete scenario)" if enc else "low stamp bytes",
+                              patch_sizes="scaled 24/20", cost=10 ** 5), max_loop=20000, split=8)
+            from dissect.cobaltstrike import guardrails as _g
+            i.native_patches = [(_g, "BEACON_CONFIG_PATCH_SIZE", 24), (_g, "GUARD_PATCH_SIZE", 20)]
+            out.append(i)
         out.append(Instance("extraction reports the image's artifacts %s" % arch, h_from_bytes(arch), dict(kind="from_bytes", arch=arch, cost=10 ** 5), max_loop=20000, split=8))
     for hs in ("stamp", "zero", "none"):
         out.append(Instance("version precedence export stamp=%s" % hs, h_version(hs), dict(kind="version", export_stamp=hs), split=8))
